@@ -230,4 +230,6 @@ def run(ctx):
              "bind type is decimal iff some parameter is fractional (else the table's int); start/end/step default to 1/10/1", pr.loc(),
              why_fail="; ".join(f"{p} -> {w}" for p, w in bad_rng[:3]))
     rules.append(r5)
+    from .c13 import COLUMN_SETS, column_order_rule
+    rules.append(column_order_rule(ctx, "C05", "C05.R6", {k: v for k, v in COLUMN_SETS.items() if "message" in k or "bind::" in k}))
     return rules
